@@ -317,6 +317,7 @@ def check(env, rep, tier):
                    "%s can return None although the option map has further entries (e.g. after an emptied value list): options vanish from the generic view" % b["path"],
                    {"file": b["span"]["f"], "line": b["span"]["l"], "fn": b["path"]}, sample={"rule": "C19.6", "adapter": b["path"], "none_paths": n_none})
         rep.floor("C19.6", "option-flattening iterators", n_ad, 2)
+        check_generic_view(prog, rep)
         # ---- C19.7 sorted-options marker justified by the container
         a = prog.adts.get("packet::Packet")
         has_marker = any(im.get("trait", "").endswith("WithSortedOptions") and prog.types[im["self_ty"]]["s"] == "packet::Packet" for im in prog.impls)
@@ -518,3 +519,158 @@ def check_content_format(prog, rep):
     rep.ob("C19.8", "get_content_format|same-type", bool(gt) and wrap is not None and all(x == wrap.rsplit("::", 1)[0] for x in gty),
            "get_content_format does not read the option with the type set_content_format writes it with (reads %s, writes %s)" % (gty, wrap),
            {"file": gb["span"]["f"], "line": gb["span"]["l"], "fn": gb["path"]})
+
+
+
+def enum_leaves(I, st, ty, depth=0):
+    """every value of an enum type with its variant (and the variant of a nested enum payload) fixed; other
+    payload fields are fresh symbols - so two leaves are equal only if they are the same value"""
+    v = I.mat(st, ty, "leaf")
+    if not isinstance(v, EnumV) or depth > 2:
+        return [v]
+    out = []
+    for vi in sorted(v.variants):
+        fts = I.field_types(ty, vi) or []
+        combos = [[]]
+        for ft in fts:
+            alts = enum_leaves(I, st, ft, depth + 1) if ft is not None and ft[0] == "adt" and len(ft) > 3 and ft[3] == "enum" else [I.mat(st, ft, "leaf.payload")]
+            combos = [c + [a] for c in combos for a in alts]
+        for c in combos:
+            out.append(EnumV(v.path, {vi: StructV(c)}, v.ty))
+    return out
+
+
+def check_generic_view(prog, rep):
+    """C19.9: the coap-message view is the raw state - code() / set_code() are the identity on every code value,
+    payload() is the whole payload field on every path, set_payload() stores a copy of exactly the bytes given,
+    add_option() hands number and bytes to the raw add_option, options() starts at the first map entry"""
+    P = {f["name"]: i for i, f in enumerate(prog.adts["packet::Packet"]["variants"][0]["fields"])} if "packet::Packet" in prog.adts else {}
+    H = {f["name"]: i for i, f in enumerate(prog.adts["header::Header"]["variants"][0]["fields"])} if "header::Header" in prog.adts else {}
+    if not all(k in P for k in ("header", "payload", "options")) or "code" not in H:
+        rep.missing("C19.9", "Packet.header.code / payload / options")
+        return
+    n_methods = 0
+    for b in sorted(prog.bodies.values(), key=lambda b_: b_["id"]):
+        tr = b.get("impl_trait") or ""
+        if b.get("promoted") or b.get("kind") != "AssocFn" or not tr.startswith("coap_message::"):
+            continue
+        if prog.types[b["impl_self"]]["s"] != "packet::Packet" or b["name"] not in ("code", "set_code", "payload", "set_payload", "add_option", "options"):
+            continue
+        n_methods += 1
+        name = b["name"]
+        ver = "0.3" if "0_3" in b["id"] else "0.2"
+        site = {"file": b["span"]["f"], "line": b["span"]["l"], "fn": b["path"]}
+        rep.analysed.add(b["path"])
+
+        def setup():
+            I = new_interp(prog)
+            I.no_join_bodies.add(b["id"])
+            st = State()
+            args = [I.mat(st, prog.ty(b["locals"][i + 1]["ty"]), "a%d" % i) for i in range(b["arg_count"])]
+            pty = prog.ty(b["locals"][1]["ty"])[2]
+            I.ensure(st, args[0].place, pty, "self")
+            fts = I.field_types(pty)
+            for nm in ("header", "payload", "options"):
+                I.ensure(st, args[0].place.extend(("f", P[nm])), fts[P[nm]], "self." + nm)
+            hty = fts[P["header"]]
+            cty = I.field_types(hty)[H["code"]]
+            cplace = args[0].place.extend(("f", P["header"])).extend(("f", H["code"]))
+            return I, st, args, cty, cplace
+        key = "%s|%s" % (ver, name)
+        if name in ("code", "set_code"):
+            I, st, args, cty, cplace = setup()
+            leaves = enum_leaves(I, st, cty)
+            bad, n = [], 0
+            for leaf in leaves:
+                I, st, args, cty, cplace = setup()
+                leaf = [x for x in enum_leaves(I, st, cty) if sorted(x.variants) == sorted(leaf.variants) and
+                        [sorted(f.variants) if isinstance(f, EnumV) else None for f in list(x.variants.values())[0].fields] ==
+                        [sorted(f.variants) if isinstance(f, EnumV) else None for f in list(leaf.variants.values())[0].fields]][0]
+                other = [x for x in enum_leaves(I, st, cty) if sorted(x.variants) != sorted(leaf.variants)][0]
+                if name == "code":
+                    I.write(st, cplace, leaf)
+                else:
+                    I.write(st, cplace, other)
+                    args[1] = leaf
+                I, res = run(prog, b, args=args, st=st, I=I)
+                for s_, rv in res:
+                    n += 1
+                    got = rv if name == "code" else I.read(s_, cplace)
+                    if got != leaf:
+                        bad.append("%s -> %s" % (tab_desc(prog, leaf), tab_desc(prog, got)))
+                if not res:
+                    bad.append("no return")
+            rep.ob("C19.9", key, not bad and n >= 4,
+                   "coap-message %s %s() is not the identity on the raw code: %s (code values tried: %d)" % (ver, name, bad[:3] or "too few values", n), site,
+                   sample={"rule": "C19.9", "method": key, "values": n})
+        elif name == "payload":
+            I, st, args, cty, cplace = setup()
+            pplace = args[0].place.extend(("f", P["payload"]))
+            pv = I.read(st, pplace)
+            I, res = run(prog, b, args=args, st=st, I=I)
+            bad = 0
+            for s_, rv in res:
+                ok = isinstance(rv, SliceV) and isinstance(rv.base, tuple) and rv.base[0] == "vec" and rv.base[1] == pplace \
+                    and s_.entails_eq(rv.off, Aff.const(0)) and isinstance(pv, VecV) and s_.entails_eq(rv.len, pv.len)
+                if not ok:
+                    bad += 1
+            rep.ob("C19.9", key, bool(res) and not bad,
+                   "coap-message %s payload() does not return the whole raw payload on %d of %d paths (a message copied through the generic interface loses or shortens its payload)" % (ver, bad, len(res)), site,
+                   sample={"rule": "C19.9", "method": key, "paths": len(res)})
+        elif name == "set_payload":
+            I, st, args, cty, cplace = setup()
+            pplace = args[0].place.extend(("f", P["payload"]))
+            I, res = run(prog, b, args=args, st=st, I=I)
+            bad = 0
+            src = args[1] if len(args) > 1 and isinstance(args[1], SliceV) else None
+            for s_, rv in res:
+                pv = I.read(s_, pplace)
+                ok = src is not None and isinstance(pv, VecV) and isinstance(pv.tag, tuple) and pv.tag[0] in ("copy", "slice") and pv.tag[1] == src.base \
+                    and s_.entails_eq(pv.len, src.len) and (not isinstance(pv.tag[2], Aff) or s_.entails_eq(pv.tag[2], src.off)) and (isinstance(pv.tag[2], Aff) or pv.tag[2] == 0)
+                if not ok:
+                    bad += 1
+            rep.ob("C19.9", key, bool(res) and not bad,
+                   "coap-message %s set_payload() does not leave a copy of exactly the bytes given as the raw payload on %d of %d paths" % (ver, bad, len(res)), site,
+                   sample={"rule": "C19.9", "method": key, "paths": len(res)})
+        elif name == "add_option":
+            I, st, args, cty, cplace = setup()
+            seen = []
+
+            def hook(I_, s_, call, cbody):
+                if call.path == "packet::Packet::add_option" and call.ctx.depth == 0:
+                    seen.append((s_.copy(), call.args))
+                    s_.ghost["raw-add-option"] = s_.ghost.get("raw-add-option", 0) + 1
+            I.call_hooks.append(hook)
+            I, res = run(prog, b, args=args, st=st, I=I)
+            src = args[2] if len(args) > 2 and isinstance(args[2], SliceV) else None
+            ok = bool(seen) and bool(res) and all(s_.ghost.get("raw-add-option") == 1 for s_, _ in res)
+            for s_, ca in seen:
+                v = ca[2] if len(ca) > 2 else None
+                if not (len(ca) > 2 and ca[1] == args[1] and src is not None and isinstance(v, VecV) and isinstance(v.tag, tuple) and v.tag[0] in ("copy", "slice")
+                        and v.tag[1] == src.base and s_.entails_eq(v.len, src.len)):
+                    ok = False
+            rep.ob("C19.9", key, ok,
+                   "coap-message %s add_option() does not pass the option number and a copy of exactly the bytes given to the raw add_option on every path" % ver, site,
+                   sample={"rule": "C19.9", "method": key, "calls": len(seen)})
+        elif name == "options":
+            I, st, args, cty, cplace = setup()
+            I, res = run(prog, b, args=args, st=st, I=I)
+            ok = bool(res)
+            for s_, rv in res:
+                fs = rv.fields if isinstance(rv, StructV) else []
+                its = [f for f in fs if isinstance(f, OpaqueV) and f.get("iter") == "iter" and f.get("last_key") == Aff.const(-1)]
+                heads = [f for f in fs if isinstance(f, EnumV)]
+                if len(its) != 1 or not all(sorted(h.variants) == [0] for h in heads):
+                    ok = False
+            rep.ob("C19.9", key, ok,
+                   "coap-message %s options() does not start a fresh walk over the whole option map (iterator from the first entry, no pending value list)" % ver, site,
+                   sample={"rule": "C19.9", "method": key, "paths": len(res)})
+    rep.floor("C19.9", "coap-message view methods checked against the raw state", n_methods, 12)
+
+
+def tab_desc(prog, v):
+    import tab
+    try:
+        return tab.leaf_variant(tab.describe(prog, State(), v))
+    except Exception:
+        return repr(v)
